@@ -145,44 +145,29 @@ Definition set_eqb {A} (eqb : A -> A -> bool) (a b : list A) : bool :=
 Fixpoint nodupb {A} (eqb : A -> A -> bool) (l : list A) : bool :=
   match l with [] => true | x :: r => negb (existsb (eqb x) r) && nodupb eqb r end.
 
-(* pages = the observed answers of pages 1..P (None = HTTP 500).
-   Every listed summary is the model's summary of that trace; a page is aborted only if the model
-   has an aborting trace.  With at most TRACE_PAGE_LIMIT distinct traces everything is on page 1
-   whatever the bucket order of query 1 is: page 1 must be the model's page (as a set) and the
-   later pages are empty.  With more traces the bucket order of each request is not observable
-   (and NOT stable between requests, see search_pages_refuted): every page lists at most
-   TRACE_PAGE_LIMIT distinct traces. *)
-Definition page_list (p : option (list trace_summary)) : list trace_summary :=
-  match p with Some l => l | None => [] end.
+(* pages = the observed answers of pages 1, 2, ... (None = an HTTP error).  The handler sorts the
+   buckets by trace id before slicing, so every page is determined by the set of trace ids: page p
+   must be the model's page p (as a set), whatever order the engine returned the buckets in. *)
+Fixpoint check_pages (winS winE : N) (recs : list span) (ids : list str)
+         (pages : list (option (list trace_summary))) (p : nat) : bool :=
+  match pages with
+  | [] => true
+  | Some obs :: rest =>
+    set_eqb sum_eqb (search_traces winS winE recs ids p) obs
+    && nodupb str_eqb (map ts_id obs)
+    && check_pages winS winE recs ids rest (S p)
+  | None :: _ => false
+  end.
 Definition check_search (winS winE : N) (recs : list span) (pages : list (option (list trace_summary))) : bool :=
-  let ids := distinct_traces recs in
-  let listed := flat_map page_list pages in
-  let any_abort_obs := existsb (fun p => match p with None => true | Some _ => false end) pages in
-  let any_abort_mod := existsb (aborts winS winE recs) ids in
-  forallb (fun s => match summarise winS winE recs (ts_id s) with [m] => sum_eqb m s | _ => false end) listed
-  && (negb any_abort_obs || any_abort_mod)
-  && forallb (fun p => nodupb str_eqb (map ts_id (page_list p))
-                       && Nat.leb (length (page_list p)) TRACE_PAGE_LIMIT) pages
-  && (if Nat.leb (length ids) TRACE_PAGE_LIMIT then
-        match pages with
-        | p1 :: rest =>
-          match search_traces winS winE recs ids 1, p1 with
-          | None, None => true
-          | Some a, Some b => set_eqb sum_eqb a b
-          | _, _ => false
-          end
-          && forallb (fun p => match p with Some [] => true | _ => false end) rest
-        | [] => true
-        end
-      else true).
+  check_pages winS winE recs (distinct_traces recs) pages 1.
 
 (* ---------- dependency graph ---------- *)
 Definition dep_eqb (m o : list ((str * str) * N)) : bool :=
   Nat.eqb (length m) (length o) && forallb (fun kv => dep_count m (fst kv) =? snd kv) o
   && nodupb pair_eqb (map fst o).
 (* cands: the possible record orders (several only when a span id is duplicated) *)
-Definition check_dep (page : nat) (cands : list (list span)) (obs : list ((str * str) * N)) : bool :=
-  existsb (fun recs => dep_eqb (dep_graph page recs) obs) cands.
+Definition check_dep (cands : list (list span)) (obs : list ((str * str) * N)) : bool :=
+  existsb (fun recs => dep_eqb (dep_graph recs) obs) cands.
 
 (* ---------- floats ---------- *)
 (* an observed float64 >= 0 as m * 2^e *)
